@@ -26,9 +26,9 @@ CONSTANTS
   MaxTicks = 1
   Backoff1 = FALSE
   Backoff2 = TRUE
-  CancelMsgs = {1}
+  CancelMsgs = {}
   MaxAdv = 1
-  AdvKinds = {"impostor", "replay"}
+  AdvKinds = {"impostor"}
   FwInbound = TRUE
   VerifyAct1 = TRUE
   MatchInner = TRUE
